@@ -57,6 +57,55 @@ pub fn logical(vt: &Vt) -> (Vec<String>, (usize, usize)) {
     (out, curpos)
 }
 
+/// logical lines as cells (characters with their pens)
+pub fn logical_cells(vt: &Vt) -> Vec<Vec<CellSpec>> {
+    let mut out = vec![];
+    let mut cur: Vec<CellSpec> = vec![];
+    for l in vt.lines() {
+        cur.extend(row_of(l));
+        if !wrapped(l) {
+            out.push(std::mem::take(&mut cur));
+        }
+    }
+    if !cur.is_empty() {
+        out.push(cur);
+    }
+    out
+}
+
+fn trim_cells(v: &[CellSpec]) -> &[CellSpec] {
+    let mut n = v.len();
+    while n > 0 && v[n - 1].0 == ' ' {
+        n -= 1;
+    }
+    &v[..n]
+}
+
+/// Pens travel with the text: after a re-wrap, every logical line before `from_line` must
+/// carry the same (character, pen) cells up to trailing spaces, and every line from
+/// `from_line` on must be a cell-for-cell prefix of what it was (lines may be cut short,
+/// never repainted). Returns a description of the first difference.
+pub fn pens_relation(before: &[Vec<CellSpec>], after: &[Vec<CellSpec>], from_line: usize) -> Option<String> {
+    for (i, a) in after.iter().enumerate() {
+        let a = trim_cells(a);
+        let Some(b) = before.get(i) else { break };
+        let b = trim_cells(b);
+        let n = if i < from_line { a.len().max(b.len()) } else { a.len() };
+        for k in 0..n {
+            if a.get(k) != b.get(k) {
+                // a pure text difference is the text relation's business; report pens only
+                if let (Some(x), Some(y)) = (a.get(k), b.get(k)) {
+                    if x.0 == y.0 && x.1 != y.1 {
+                        return Some(format!("logical line {}, character {} ({:?}): pen was {:?}, is {:?}", i, k, x.0, y.1, x.1));
+                    }
+                }
+                break;
+            }
+        }
+    }
+    None
+}
+
 pub fn trim_sp(s: &str) -> &str {
     s.trim_end_matches(' ')
 }
